@@ -188,6 +188,32 @@ func planC08sweep(c *Ctx, run int64) *Plan {
 				add("addmember", n.Ptr, Op{S2: cands[j], S3: cat[g][cands[j]]})
 				cands = append(cands[:j], cands[j+1:]...)
 			}
+			// and members of the published schema that no corpus document carries at this place
+			if strings.HasPrefix(n.Ptr, "/doc") && v.Get("doc") != nil {
+				sm := schemaMembers(v.Get("doc"), strings.TrimPrefix(n.Ptr, "/doc"))
+				var sk []string
+				for _, k := range SortedKeys(sm) {
+					if _, known := cat[g][k]; !known {
+						sk = append(sk, k)
+					}
+				}
+				nsk := 2
+				if c.Tier == "thorough" {
+					nsk = len(sk) // the exhaustive tier adds every one of them
+				}
+				for i := 0; i < nsk && len(sk) > 0; i++ {
+					j := r.IntN(len(sk))
+					vs := sm[sk[j]]
+					if c.Tier == "thorough" {
+						for _, sample := range vs {
+							add("addmember", n.Ptr, Op{S2: sk[j], S3: sample, B: true})
+						}
+					} else {
+						add("addmember", n.Ptr, Op{S2: sk[j], S3: vs[r.IntN(len(vs))], B: true})
+					}
+					sk = append(sk[:j], sk[j+1:]...)
+				}
+			}
 		}
 		if n.Parent != nil && n.Parent.K == 'o' {
 			add("remove", n.Ptr, Op{})
